@@ -26,15 +26,14 @@ const (
 )
 
 func resolveErgoDir(start string) (string, error) {
-	// A relative start (e.g. --dir sub) must search the same ancestors as the
-	// absolute spelling of that directory; the upward walk stops at "." otherwise.
-	if !filepath.IsAbs(start) {
-		abs, err := filepath.Abs(start)
-		if err != nil {
-			return "", err
-		}
-		start = abs
+	// Search from the clean absolute spelling of the start directory: a relative
+	// start (--dir sub) would stop the upward walk at ".", and an uncleaned one
+	// (--dir /a/b/..) would visit /a/b, which does not enclose it.
+	abs, err := filepath.Abs(start)
+	if err != nil {
+		return "", err
 	}
+	start = abs
 	current := start
 	for {
 		candidate := filepath.Join(current, dataDirName)
